@@ -136,6 +136,10 @@ func Apply(st state.Tracker, c Call) (Res, interface{}) {
 	case "Wipe":
 		st.Wipe()
 		return Res{K: "none"}, nil
+	case "String":
+		// the debug rendering of the whole tracker: a read of everything (its text is not modelled)
+		_ = st.String()
+		return Res{K: "none"}, nil
 	}
 	panic("unknown tracker operation " + c.Op)
 }
